@@ -1,0 +1,61 @@
+//go:build verif
+
+package expectations
+
+import (
+	"sort"
+	"time"
+)
+
+// VerifExpEntry is the content of ResourceExpectations under one controller key.
+type VerifExpEntry struct {
+	Key      string
+	Objs     map[string][]string // action -> sorted names (empty sets included)
+	Unsat    bool                // firstUnsatisfiedTimestamp is set
+	UnsatAge time.Duration
+}
+
+func verifReal() *realResourceExpectations { return ResourceExpectations.(*realResourceExpectations) }
+
+// VerifDump lists the whole process-wide expectation cache sorted by key (verification harness only).
+func VerifDump() []VerifExpEntry {
+	r := verifReal()
+	r.Lock()
+	defer r.Unlock()
+	out := []VerifExpEntry{}
+	for k, e := range r.controllerCache {
+		x := VerifExpEntry{Key: k, Objs: map[string][]string{}}
+		for a, s := range e.objsCache {
+			x.Objs[string(a)] = s.List()
+		}
+		if !e.firstUnsatisfiedTimestamp.IsZero() {
+			x.Unsat = true
+			x.UnsatAge = time.Since(e.firstUnsatisfiedTimestamp)
+		}
+		out = append(out, x)
+	}
+	sort.Slice(out, func(i, j int) bool { return out[i].Key < out[j].Key })
+	return out
+}
+
+// VerifShift makes every firstUnsatisfiedTimestamp `d` older: the harness's way of letting time pass.
+func VerifShift(d time.Duration) {
+	r := verifReal()
+	r.Lock()
+	defer r.Unlock()
+	for _, e := range r.controllerCache {
+		if !e.firstUnsatisfiedTimestamp.IsZero() {
+			e.firstUnsatisfiedTimestamp = e.firstUnsatisfiedTimestamp.Add(-d)
+		}
+	}
+}
+
+// VerifReset empties the process-wide expectation cache.
+func VerifReset() {
+	r := verifReal()
+	r.Lock()
+	defer r.Unlock()
+	for k := range r.controllerCache {
+		delete(r.controllerCache, k)
+	}
+}
